@@ -339,7 +339,7 @@ def check_api(prop, tier, deadline):
 VENDOR = ["test/c3dFiles/Vicon.c3d", "test/c3dFiles/Qualisys.c3d", "test/c3dFiles/Optotrak.c3d", "example/markers_analogs.c3d"]
 
 
-def run_file(flavour, mode, devs, tier, deadline, tag=None, vendor=True):
+def run_file(flavour, mode, devs, tier, deadline, tag=None, vendor=True, env_extra=None, transcript=None):
     bdir = build(flavour, ("drv_file",))
     sc = scratch_dir(tag or mode)
     out = os.path.join(sc, "out.json")
@@ -351,6 +351,10 @@ def run_file(flavour, mode, devs, tier, deadline, tag=None, vendor=True):
         for v in VENDOR:
             if os.path.exists(os.path.join(REPO, v)):
                 cmd += ["--vendor", os.path.join(REPO, v)]
+    if env_extra:
+        env.update(env_extra)
+    if transcript:
+        cmd += ["--transcript", transcript]
     t0 = time.time()
     r = sh(cmd, env=env, capture_output=True, text=True)
     if r.returncode != 0 or not os.path.exists(out):
@@ -648,7 +652,25 @@ def check_c13(tier, deadline):
         d["probes"]["san_reports_total"] = d["san_reports_total"]
         runs.append(d)
         shutil.rmtree(d["_scratch"], ignore_errors=True)
+    # engine B under the sanitizer: every generated file (<= 2 / 3 deviations) and the shipped files through load -> save -> load -> save
+    fd = run_file("asan", "c04", 2 if tier == "quick" else 3, tier, deadline / 4, tag="c13file")
+    absorb_file(rep, fd, set(), crash_prop="C13")
+    # string-length sweep under the sanitizer: the residue sweep builds, saves and reloads objects whose names/descriptions/values take every length 0..255
+    bdir = build("asan", ("drv_misc",))
+    sc = scratch_dir("c13sweep"); out = os.path.join(sc, "out.json")
+    env = dict(os.environ); env.update(ASAN_ENV); env["ASAN_OPTIONS"] = env["ASAN_OPTIONS"].replace("halt_on_error=0", "halt_on_error=1")
+    r = sh([os.path.join(bdir, "drv_misc"), "--mode", "residue", "--tier", tier, "--scratch", sc, "--out", out, "--workers", str(WORKERS)], env=env, capture_output=True, text=True)
+    sweep = json.load(open(out)) if os.path.exists(out) else {"done": 0, "crashed": ["<driver failed>"], "cases": 0}
+    shutil.rmtree(sc, ignore_errors=True)
+    if "AddressSanitizer" in r.stderr or "runtime error:" in r.stderr:
+        for blk in r.stderr.split("==ERROR: ")[1:]:
+            rep.add(san_signature(("ERROR: " + blk).replace("\n", "|")), ("ERROR: " + blk)[:900], {"engine": "misc", "mode": "residue", "tier": tier, "flavour": "asan", "input": (sweep["crashed"] or ["?"])[0]})
+    elif sweep["crashed"]:
+        rep.add("crash/residue_sweep_under_asan", "worker died on " + sweep["crashed"][0] + " :: " + r.stderr[-400:], {"engine": "misc", "mode": "residue", "tier": tier, "flavour": "asan", "input": sweep["crashed"][0]})
     rep.coverage = cov_from_api(runs)
+    rep.coverage["files_under_asan"] = {k: fd[k] for k in ("mode", "devs", "cases", "done", "outcomes", "crashes_total")}
+    rep.coverage["evaluations"] += fd["done"]
+    rep.coverage["length_sweep_under_asan"] = {"objects": sweep["done"], "of": sweep["cases"]}
     rep.coverage["sanitizer"] = "g++ -fsanitize=address,undefined -D_GLIBCXX_ASSERTIONS; recoverable ASan errors are attributed to the transition that raised them, fatal ones through the worker breadcrumb"
     rep.assumptions = ["memory errors that ASan/UBSan(bounds,vptr)/libstdc++ assertions cannot see (e.g. intra-object overflow) are out of reach",
                        "every distinct state is additionally printed, saved, reloaded and destroyed under the sanitizer"]
@@ -738,7 +760,29 @@ def check_c14(tier, deadline):
         else:
             rep.notes.append("memcheck pass failed to run: " + r.stderr[-300:])
         shutil.rmtree(sc, ignore_errors=True)
+    # loaded objects (every generated file with <= 1 (quick) / 2 (thorough) deviations + the shipped files): same three heap perturbations, joined on the case
+    ftr = []
+    for tag, env in envs:
+        tp = f"/dev/shm/ezc3d-verif.{os.getpid()}.c14tr.{tag}"
+        fd = run_file("plain", "c14", 1 if tier == "quick" else 2, tier, deadline / 6, tag="c14f" + tag, env_extra=env, transcript=tp)
+        absorb_file(rep, fd, {"C14"}, crash_prop="C14")
+        ftr.append((fd, open(tp, errors="replace").read().splitlines() if os.path.exists(tp) else []))
+        if os.path.exists(tp):
+            os.remove(tp)
+    loaded_joined = loaded_diff = 0
+    for i, line in enumerate(ftr[0][1]):
+        others = [t[1][i] if i < len(t[1]) else None for t in ftr[1:]]
+        if not line:
+            continue
+        loaded_joined += 1
+        if any(o != line for o in others):
+            loaded_diff += 1
+            case = line.split("\t")[1] if "\t" in line else "?"
+            rep.add("bytes_depend_on_heap_garbage/loaded-object/" + case_class(case), "the file saved from a loaded object differs between heap perturbations: " + line[:200] + " || " + str(others[0])[:200],
+                    {"engine": "file", "mode": "c14", "tier": tier, "flavour": "plain", "input": case})
     cov = cov_from_api(runs[:1])
+    cov["loaded_objects"] = {"cases": ftr[0][0]["cases"], "joined_across_processes": loaded_joined, "with_differing_bytes": loaded_diff, "outcomes": ftr[0][0]["outcomes"]}
+    cov["evaluations"] += sum(t[0]["done"] for t in ftr)
     cov["perturbation_runs"] = [{"MALLOC_PERTURB_": t, "states": d["states"], "saves": d["probes"]["c14"]} for (t, _), d in zip(envs, runs)]
     cov["states_joined_across_processes"] = joined
     cov["states_with_differing_bytes"] = differing
